@@ -12,7 +12,13 @@ Local Open Scope Z_scope.
 (* for every power-on state, every file and input that are well-behaved on the image (ISA trace defined, in range,
    read-safe, first instruction not a system call, nothing read outside the image before it is written) and whose ISA
    run exits within n instructions: hextb (11 + 2n loop iterations suffice) and hexsim produce the ISA's events, leave
-   the same input unread and return the same exit code *)
+   the same input unread and return the same exit code.
+   Two of the hypotheses inside well_behaved exclude shapes that lie inside the property's literal quantifier; both are
+   KNOWN FINDINGS, see known_findings.json, exhibited by tools/c06.py on every run with hand-assembled binaries:
+     - step_safe's read clause (a READ does not overwrite the word of its own SVC), kind read-overwrites-own-svc:
+       hextb retires the overwritten byte, hexsim the SVC;
+     - fetch (boot ws) <> 211 (the first instruction is not a system call), kind first-instruction-svc: hextb never
+       samples the request of the instruction at byte 0, hexsim services it. *)
 Theorem C06_tb_equals_sim : forall (i : init) (file : list Z) (hw : nat) (inp : inputs) (n : nat)
     (tr : list event) (inp' : inputs) (a' : arch) (c : Z),
   let ws := firstn hw (loaded_words file) in
